@@ -228,6 +228,11 @@ class PointJacobi(object):
             return NotImplemented
         if self.__curve != other.curve():
             return False
+        # a stored (x, 0, z) or (x, y, 0) stands for the point at infinity
+        if not y1 or not z1:
+            return not y2 or not z2
+        if not y2 or not z2:
+            return False
         p = self.__curve.p()
 
         zz1 = z1 * z1 % p
